@@ -35,8 +35,6 @@ Definition rename_case (c : case) (pmap : list (Z * Z)) (vmaps : list (list (Z *
   mkCase (rename_clauses r (c_prog c) vmaps) (map (map r) (c_layers c))
          (map (rp_fact r) (c_store c)) (map (rp_fact r) (c_init c)) (c_fuel c) (c_obs c).
 
-Definition same_set (a b : list fact) : bool := set_eqb a b.
-
 (* 0 agree.  CBase: C01's codes 1..5.  CVariant: 10 + C01's code.  CSame: 2 = the two
    fact sets differ (property violated on the implementation's own outputs). *)
 Definition judge (x : c05case) : Z :=
